@@ -165,7 +165,7 @@ def jobs(tier):
     for lib in LIBS:
         for ra in ((True, False) if lib == 'with_raman' else (False,)):
             js.append(dict(name=f'H10a:select_edfa:{lib}:raman_allowed={ra}', fn='h_select', params=dict(lib=lib, raman_allowed=ra),
-                           budget_s=150 if tier == 'quick' else 1500, witness_every=3, cost=500))
+                           budget_s=150 if tier == 'quick' else 600, witness_every=3, cost=500))
     js.append(dict(name='H10b:get_node_restrictions', fn='h_restrictions', witness_every=5, cost=100))
     for t in LOSS_TABLES:
         js.append(dict(name=f'H10c:raman_eligibility:{t}', fn='h_raman_eligibility', params=dict(table=t), cost=50))
